@@ -156,6 +156,16 @@ func c01Event(c *ctx, g orb.Geometry, pkg string, le bool, srid int, psrid int, 
 	if le {
 		order = binary.LittleEndian
 	}
+	// the packages' default byte order is configuration that outlives calls: a quarter of the events run with it set to
+	// big endian (Value / ValuePrefixSRID marshal in the default order; the SRID prefix itself is always little endian)
+	defLE := c.rng.Intn(4) != 0
+	e["defle"] = 1
+	if !defLE {
+		e["defle"] = 0
+		wkb.DefaultByteOrder, ewkb.DefaultByteOrder = binary.BigEndian, binary.BigEndian
+		defer func() { wkb.DefaultByteOrder, ewkb.DefaultByteOrder = binary.LittleEndian, binary.LittleEndian }()
+	}
+	e["vpsrid"], e["vpok"] = psrid, 1
 	setCurrent(pkg+".Marshal", gm)
 	var data, val, valp []byte
 	var err error
@@ -200,6 +210,13 @@ func c01Event(c *ctx, g orb.Geometry, pkg string, le bool, srid int, psrid int, 
 			val, _ = v.([]byte)
 			v, _ = ewkb.ValuePrefixSRID(g, psrid).Value()
 			valp, _ = v.([]byte)
+			// what ValuePrefixSRID wrote is what ScannerPrefixSRID reads: same SRID, same geometry
+			ps := ewkb.ScannerPrefixSRID(nil)
+			if err := ps.Scan(append([]byte{}, valp...)); err != nil || !(orb.Equal(ps.Geometry, decb) || hasNaN(decb)) {
+				e["vpok"] = 0
+			} else {
+				e["vpsrid"] = ps.SRID
+			}
 		}
 		// scanner: destinations x framings
 		frames := []string{"raw", "hex", "xhex", "prefix"}
